@@ -55,15 +55,22 @@ class Multiline:
       # so that a refused value leaves the previous one as it was
       prev = gfapy.FieldArray(self.get_datatype(tagname), [prev])
       if self.vlevel > 1:
-        prev._vpush(value, datatype, tagname)
+        self._vpush_checked(prev, value, datatype, tagname)
       else:
         prev.append(value)
       self._set_existing_field(tagname, prev)
       return
     if self.vlevel > 1:
-      prev._vpush(value, datatype, tagname)
+      self._vpush_checked(prev, value, datatype, tagname)
     else:
       prev.append(value)
+
+  @staticmethod
+  def _vpush_checked(array, value, datatype, tagname):
+    # (the validating push checks the value only if no datatype is given)
+    if datatype is not None and datatype == array.datatype:
+      gfapy.Field._validate_gfa_field(value, datatype, tagname)
+    array._vpush(value, datatype, tagname)
 
   def field_to_s(self, fieldname, tag = False):
     """
